@@ -1,5 +1,6 @@
 import PatVerif.Drive.C19
 import PatVerif.Drive.C04
+import PatVerif.Drive.C20
 /-! Line-protocol driver: one operation per input line, one outcome line per operation,
 computed by the model definitions the theorems are about. -/
 open PatVerif
@@ -11,6 +12,7 @@ def dispatch (line : String) : String :=
     let r :=
       if op.startsWith "c19." then Drive.C19.handle op args
       else if op.startsWith "c04." then Drive.C04.handle op args
+      else if op.startsWith "c20." then Drive.C20.handle op args
       else none
     match r with
     | some s => s
